@@ -190,6 +190,11 @@ func verifC03_struct() {
 	vAssert(g.err != nil, "C03.struct.ends-with-error")
 	vAssert(g.afterMsgs == 0, "C03.struct.nothing-delivered-after-the-failure")
 	vCheckDelivered(g, e, "C03.struct")
+	if e.failed {
+		// a protocol violation is reported as a failure, never as a Close frame received from the peer (an
+		// application would take that for an orderly shutdown), and is not answered by an echo of the peer's bytes
+		vAssert(CloseStatus(g.err) == -1, "C03.struct.violation-is-not-a-peer-close")
+	}
 	if e.closeRecv {
 		var ce CloseError
 		isCE := errors.As(g.err, &ce)
@@ -395,6 +400,7 @@ func verifC03_raw() {
 	}
 	if e.failed {
 		vReach("C03.raw.violation")
+		vAssert(CloseStatus(g.err) == -1, "C03.raw.violation-is-not-a-peer-close")
 	}
 	_ = incomplete
 	// compressed payloads made of arbitrary bytes are malformed DEFLATE almost surely: only termination and no panic there
